@@ -131,7 +131,7 @@ claim("C18",
       "strum's Dialect::from_str is an uninterpreted partial function (the name table itself is derive output); HashMap lookup of the header "
       "and translate_query are external; the resolver-independence clause is argued, not checked.")
 
-prop("C14", ["prql_prec", "fmt_strings", "fmt_interp", "fmt_names", "interp_ident", "fmt_width", "lex_strings"],
+prop("C14", ["prql_prec", "fmt_strings", "fmt_interp", "fmt_names", "interp_ident", "fmt_width", "lex_strings", "fmt_entry"],
      not_covered="line breaking (SeparatedExprs), idempotence, the other arms of ExprKind::write (unary / range / call "
                  "operands inherit binary_position: the rows quantify over every inherited value), string escaping beyond the delimiter length")
 claim("C14",
@@ -141,7 +141,7 @@ claim("C14",
       "(parent position, child kind), for every inherited position / flag / outer context: no parentheses ==> the PRQL grammar re-attaches the child "
       "to the same parent (FP1.*; the grammar's Pratt table is extracted from parser/expr.rs and is itself checked against the documented table, "
       "PP1.*); identifiers are written bare only if they are not lexer keywords, in both ident writers (WI1/2, DI1/2, FP2.*, FP3.*); the string "
-      "delimiter run is odd and longer than any quote run (QS2). the text printed inside a string literal (escape_all_except_quotes, loop proof) is one piece per character, each of which the lexer decodes to that character (fmt_strings EQ1); quote_string (whole function) prints `q^n s q^n` with n odd only when s neither starts nor ends with q and has no run of n q's, and otherwise escapes the double quotes - so the lexer reads the literal back as s (QS3). the text written for a string part of an s- / f-string - four single-character replacements, backslash first - contains no bare quote and no single brace, and undoing the lexer's escapes and then the interpolation parser's brace doubling gives back the part, for all strings (fmt_interp WI1-3; the theory of chained str::replace and of the two decoders is proved by induction in 12 lemmas). what the formatter prints is read back by the lexer character for character: an unescaped string opened by n quotes is the text up to the first run of n quotes VERBATIM - a raw CR LF included (lex_strings MQ1-2, ES1-4: the lexer side of the round trip). NOT proved: line breaking, idempotence, whole-AST round trip.",
+      "delimiter run is odd and longer than any quote run (QS2). the text printed inside a string literal (escape_all_except_quotes, loop proof) is one piece per character, each of which the lexer decodes to that character (fmt_strings EQ1); quote_string (whole function) prints `q^n s q^n` with n odd only when s neither starts nor ends with q and has no run of n q's, and otherwise escapes the double quotes - so the lexer reads the literal back as s (QS3). the text written for a string part of an s- / f-string - four single-character replacements, backslash first - contains no bare quote and no single brace, and undoing the lexer's escapes and then the interpolation parser's brace doubling gives back the part, for all strings (fmt_interp WI1-3; the theory of chained str::replace and of the two decoders is proved by induction in 12 lemmas). what the formatter prints is read back by the lexer character for character: an unescaped string opened by n quotes is the text up to the first run of n quotes VERBATIM - a raw CR LF included (lex_strings MQ1-2, ES1-4: the lexer side of the round trip). pl_to_prql hands the code generator's text out unchanged (fmt_entry FE1). NOT proved: line breaking, idempotence, whole-AST round trip.",
       "pr::Expr::write's use of needs_parenthesis and the non-binary arms' option handling are read off the text, not verified; chumsky's pratt() "
       "semantics assumed; regex / HashSet / Formatter / String operations are shims by contract.")
 
@@ -218,14 +218,14 @@ claim("C16",
       "every used id at its point of use (cid redirection through hash maps), select arity.",
       "toposort()'s HashMap index / outer loop, lower_table_decl and the Lowerer's node_mapping are not under contract.")
 
-prop("C13", ["span_units", "compose_errors", "span_frame", "lower_expr", "ident_kinds"], select={"ident_kinds": lambda n: n.split(".", 1)[1] in ("FR2",), "lower_expr": lambda n: n.split(".", 1)[1] in ("LS1",)},
+prop("C13", ["span_units", "compose_errors", "span_frame", "lower_expr", "ident_kinds", "parse_files"], select={"ident_kinds": lambda n: n.split(".", 1)[1] in ("FR2",), "lower_expr": lambda n: n.split(".", 1)[1] in ("LS1",)},
      not_covered="ariadne rendering (the quoted line), multi-file source ids, resolver / SQL-generation errors (their spans are copied from parser spans)")
 claim("C13",
       "PARTIAL. Proved on the real code: convert_lexer_error stores a span in CHARACTER units - the character positions of the byte offsets chumsky "
       "reported - with start <= end <= number of characters of the source and the given source id (SU3a-d, helpers inlined); compose_location reports "
       "exactly the line/column of span.start and span.end (SU1a-c); the parser's map_span yields the BYTE range of the tokens (SU2m). The linking "
       "obligation 'a byte offset inside the source is a character offset inside the source' (SU2) fails: recorded finding (panic / misplaced caret on "
-      "non-ASCII sources). a span that ErrorMessages::composed hands on names a source of the tree (compose_errors CP4); the end-of-input span and every span of at least one token has start <= end (span_units SU2o); FRAME (syntactic, whole tree): the functions that MAKE a span - a `Span { .. }` value, Span::new, span arithmetic - are the lexer's, the parser's and span.rs's, each with its contract or reason; everything else copies spans (span_frame SF.maker rows: a new maker needs a contract of its own); lowering keeps the span of every expression (lower_expr LS1), which is what errors of the SQL back end are located with. NOT proved: rendering, multi-file ids.",
+      "non-ASCII sources). a span that ErrorMessages::composed hands on names a source of the tree (compose_errors CP4); the end-of-input span and every span of at least one token has start <= end (span_units SU2o); with several files, every file is parsed with the id registered for its own path and the errors of the project are those of the files, in file order, uncompared (parse_files PF1-2: the loop of parser::parse); FRAME (syntactic, whole tree): the functions that MAKE a span - a `Span { .. }` value, Span::new, span arithmetic - are the lexer's, the parser's and span.rs's, each with its contract or reason; everything else copies spans (span_frame SF.maker rows: a new maker needs a contract of its own); lowering keeps the span of every expression (lower_expr LS1), which is what errors of the SQL back end are located with. NOT proved: rendering, multi-file ids.",
       "UTF-8 text model (char_len <= byte_len, monotone prefix counts), chumsky's span contract, ariadne's get_offset_line and error constructors are "
       "assumed by contract.")
 
@@ -240,7 +240,7 @@ def _safety(name):
 
 
 _ALL_UNITS = ["take_range", "sort_take", "split_order", "window_frame", "dialect_select", "ident_quote", "ids_names", "toposort", "rq_tables",
-              "select_shape", "span_units", "sql_prec", "prql_prec", "literals", "set_ops", "desugar", "resolve_guards", "lex_strings", "limit_clause", "static_eval", "operator_tpl", "rel_names", "lower_cols", "vec_utils", "group_take", "flatten_sort", "star_exclude", "std_arity", "limit_select", "rq_shape", "star_cols", "func_env", "json_lits", "cte_define", "type_meet", "fmt_strings", "concat_ops", "sstring_query", "sstring_cols", "lineage_except", "sort_infer", "setop_pairs", "setops_reach", "tuple_unpack", "resolver_unwraps", "name_lookup", "frame_decls", "select_cols", "lower_transform", "sort_names", "positional_map", "fmt_interp", "datetime_lit", "lex_numbers", "rq_fold", "dialect_flags", "cid_inline", "module_names", "compose_errors", "lex_end_expr", "fmt_names", "header_args", "literal_rows", "tuple_helpers", "pipeline_types", "lower_ident", "sql_templates", "interp_ident", "table_instance", "fmt_width", "span_frame", "range_sugar", "pl_fold", "lower_expr", "sql_relations", "anchor_names", "ident_kinds", "sql_case", "literal_frame", "relation_literal"]
+              "select_shape", "span_units", "sql_prec", "prql_prec", "literals", "set_ops", "desugar", "resolve_guards", "lex_strings", "limit_clause", "static_eval", "operator_tpl", "rel_names", "lower_cols", "vec_utils", "group_take", "flatten_sort", "star_exclude", "std_arity", "limit_select", "rq_shape", "star_cols", "func_env", "json_lits", "cte_define", "type_meet", "fmt_strings", "concat_ops", "sstring_query", "sstring_cols", "lineage_except", "sort_infer", "setop_pairs", "setops_reach", "tuple_unpack", "resolver_unwraps", "name_lookup", "frame_decls", "select_cols", "lower_transform", "sort_names", "positional_map", "fmt_interp", "datetime_lit", "lex_numbers", "rq_fold", "dialect_flags", "cid_inline", "module_names", "compose_errors", "lex_end_expr", "fmt_names", "header_args", "literal_rows", "tuple_helpers", "pipeline_types", "lower_ident", "sql_templates", "interp_ident", "table_instance", "fmt_width", "span_frame", "range_sugar", "pl_fold", "lower_expr", "sql_relations", "anchor_names", "ident_kinds", "sql_case", "literal_frame", "relation_literal", "fmt_entry", "parse_files"]
 
 
 def _c12_split_order(n):
